@@ -167,13 +167,21 @@ func errSig(err error) string {
 func panicSig(s string) string { return classify(s) }
 
 func classify(msg string) string {
-	// keep only the trailing clause (the root cause) and strip names
-	if i := strings.LastIndex(msg, ": "); i >= 0 && i+2 < len(msg) {
-		tail := msg[i+2:]
-		if len(tail) > 12 {
-			msg = tail
+	// keep only the trailing clause (the root cause) and strip names; fall back to earlier clauses
+	// when the last one holds nothing but names
+	clauses := strings.Split(msg, ": ")
+	for i := len(clauses) - 1; i >= 0; i-- {
+		if len(clauses[i]) <= 12 && i > 0 {
+			continue
+		}
+		if c := classifyClause(clauses[i]); c != "other" || i == 0 {
+			return c
 		}
 	}
+	return "other"
+}
+
+func classifyClause(msg string) string {
 	var sb strings.Builder
 	words := strings.Fields(msg)
 	for _, w := range words {
